@@ -684,6 +684,20 @@ func pqConcurrent(seed int64, cfg pqengine.Config, nEvents int) []string {
 					rd.Done()
 					return
 				}
+				if r.Intn(8) == 0 {
+					// the consumer abandons this event (not read at all, or only a prefix): the following Next skips
+					// the rest of it - also when it is the newest event the reader knows of
+					if part := sz / 2; part > 0 && r.Intn(2) == 0 {
+						pb := make([]byte, part)
+						if k, err := rd.Read(pb); err != nil || k != part || !bytes.Equal(pb, pqengine.Content(consumed, 7, sz)[:part]) {
+							fail("event #%d: prefix of %d bytes differs from what was written (%d read, %v)", consumed, part, k, err)
+							rd.Done()
+							return
+						}
+					}
+					consumed++
+					continue
+				}
 				buf := make([]byte, sz)
 				got := 0
 				for got < sz {
